@@ -150,6 +150,8 @@ type VC struct {
 	pure     int
 	noFacts  int
 	onlyOpcase string
+	selfWritten map[string]bool // heap keys this function may write itself
+	forallAlt map[string][]string // index-quantified forall -> equivalent cell-triggered variants
 }
 
 type loopInfo struct {
@@ -203,6 +205,7 @@ func (vc *VC) assume(st *State, f string) {
 	if f == "true" {
 		return
 	}
+	f = vc.strengthen(f)
 	st.assumes = append(st.assumes, f)
 	st.conds = append(st.conds, false)
 }
